@@ -246,7 +246,9 @@ class Offers:
     def refresh(self, slot, ttl):
         # the endpoint sits in the first or in the second option run, alone or next to another option, from refresh to refresh
         self._n_offers = getattr(self, "_n_offers", 0) + 1
-        ep, lb = refwire.ep4("10.0.1.1", 3000), refwire.opt_loadbal(1, 1)
+        # ... and a refresh may name another endpoint than its predecessor (the service moved to another port, or gained a
+        # second endpoint): it is the same service from the same sender, a refresh like any other
+        ep, lb = refwire.ep4("10.0.1.1", 3000 + (self._n_offers // 3) % 3), refwire.opt_loadbal(1, 1)
         o1, o2 = (([ep], []), ([], [ep]), ([ep], [lb]), ([lb], [ep]))[(self._n_offers // 2) % 4]
         self._send(slot[1], [net.offer(0x1000 + slot[0], 1, 1, 0, ttl, o1=o1, o2=o2)])
 
